@@ -57,23 +57,53 @@ intro = '''## 11. Seeded changes and which checks catch them
 Each change was written by a fresh sub-agent that was given only the text of one property and its own scratch
 worktree (nothing from /verif), and was kept only after `tools/confirm_mut.sh` had confirmed, in another scratch
 worktree of the current `/repo` HEAD, that the demonstration passes without the change and fails with it and that
-the whole existing suite still passes with it.  Changes whose patch no longer applied after a `fix:` commit were
-re-made by hand at the same site and confirmed again (noted in their `notes.md`); three changes were dropped
-because a fix had made them harmless (`C11-a2`, `C04-a1`: both need the cache to alias session objects, which the
-F5 fix removed; the original `C16-a1` became harmless once the window test gained its 64-bit guard and was re-made
-as the equivalent left-edge slip).  `tools/mutsweep.sh` applies each patch to a scratch worktree and runs the quick
-check of its property there (`VERIF_REPO`); `/repo` is never touched.
+the whole existing suite still passes with it.  Three batches were produced (`-a`, `-b`, `-c`; the third with the
+request to prefer the less obvious code paths, both stacks and both roles).  After the last `fix:` commit all of
+them were confirmed again against the repaired tree (`tools/reconfirm_all.sh`).  Changes whose patch no longer
+applied after a `fix:` commit were re-made by hand at the same site and confirmed again; demonstrations that relied
+on behaviour a fix removed (the stock client remembering the session of a failed handshake; the one-timeout stall
+of every fault-free DTLCP handshake; ChangeCipherSpec+Finished travelling alone when retransmitted; a handshaking
+endpoint adopting a higher epoch from an unauthenticated record) were adjusted to show the same defect another way;
+every such adjustment is noted in the change's `notes.md`.  Three changes were dropped because a fix had made them
+harmless (`C11-a2`, `C04-a1`: both need the cache to alias session objects, which the F5 fix removed; the original
+`C16-a1` became harmless once the window test gained its 64-bit guard and was re-made as the equivalent left-edge
+slip).  `C05-C05-c2` was written by the agent given C05 but, as its own notes say, breaks the datagram stack's
+replay window: it is filed, and swept, under C16.  `tools/mutsweep.sh` applies each patch to a scratch worktree and
+runs the quick check of its property there (`VERIF_REPO`); `/repo` is never touched.
 
 SUMMARY
 
 TABLE
 
-Checks were strengthened where a sweep showed a miss (each miss was a missing harness or a missing oracle clause,
-never a loosened check): record layer before the handshake with two records and lying length fields (C03-a2, C08-a1),
-CBC decrypt lemma (C09-a1), spin detection (C09-a2), server-name forms (C02-a1), header authentication lemma
-(C04-a2, C16-a2), resumption decision lemma (C10-a1), receive capacity lemma (C15-a2), retransmission lemma in the
-dtlcp client driver (C19-a2), C06/C07-prefixed clauses in shared harnesses (C06-a1, C07-a2), fragment-limit
-lemma (C17-a2).
+Checks were strengthened where a sweep showed a miss (each miss was a missing harness, a missing oracle clause, an
+over-constrained pre-state, or an obligation asserted under another property's name only — never a loosened check):
+record layer before the handshake with two records and lying length fields (C03-a2, C08-a1), CBC decrypt lemma
+(C09-a1), spin detection (C09-a2), server-name forms (C02-a1), header authentication lemma (C04-a2, C16-a2),
+resumption decision lemma (C10-a1), receive capacity lemma (C15-a2), retransmission lemma in the dtlcp client driver
+(C19-a2), C06/C07-prefixed clauses in shared harnesses (C06-a1, C07-a2), fragment-limit lemma (C17-a2); after the
+second and third batch: empty session id echo (C01-b2), ALPN on resumption (C01-c2), suite enabled by both sides on
+resumption under C01 (C01-c1), resumed-certificate lemma driven through `processServerHello` and the real
+`verifySessionCertificates` inside the client driver so that an internal signature change no longer breaks the
+harness build (C02-b2), deferred ChangeCipherSpec body (C03-b1, C03-c1), decoder and key-exchange totality counted
+under C03 (C03-b2, C03-c2), sequence-number carry lemma from an arbitrary 64-bit pre-state (C04-b1), first bad record
+is final after CloseWrite / for a HelloRequest / for a replay (C05-c1, C12-c1), datagram round trip around the CBC
+block boundary (C06-c1), evicted identifiers under C10 (C10-b1), close_notify coalesced with the last record (C12-c2),
+decoders consume the whole slice (C14-b2), fragment flood under C17 (C17-b2), empty non-nil cookie secret (C18-b2),
+duplicate suppression and fragment reordering under C19 (C19-b2, C19-c2).  Not caught and not catchable by this
+technique: `C11-C11-c2` (a read-lock fast path in the session cache that is wrong only under a concurrent eviction:
+every sequential history is correct; goroutine schedules are outside the engine, see C13 in section 8).
+
+**Behaviour-preserving refactorings (no alarm where the property holds).**  Four further sub-agents, each given a
+worktree and a group of files, produced twelve refactorings that keep every function name and signature and change
+bodies only (`/verif/benign/<id>/`: header parsing with `encoding/binary`, if-chains turned into switches, extracted
+helpers, merged or split loops, restructured LRU `Put`/`Get`, replay-window and fragment-bitmap arithmetic rewritten,
+`writeFlight` scan extracted, cookie loop un-nested, PRF and key-block slicing rewritten, …), each passing the
+repository's suite.  `tools/bencheck.sh` ran the quick checks of the properties anchored in the touched files
+against each of them: 36 check runs, 34 exit 0, no VIOLATION line anywhere.  The two runs that did not exit 0 were
+the C04 check reporting an inconclusive solver answer in `C04_header_authenticated` while three heavy jobs shared
+the machine — unrelated to the refactoring (one of the two patches does not touch record code); that harness was
+made about five times cheaper afterwards and unknown answers are now asked a second time with a longer timeout
+(section 12).
 
 '''
 d = d[:start] + intro.replace('SUMMARY', summary).replace('TABLE', '\n'.join(tab)) + d[end:]
